@@ -86,6 +86,12 @@ class Impl:
         self.meas = Measurement.fromMeasurementLabels(
             ["azimuth_rad", "elevation_rad", "range_km", "range_rate_km_p_sec"], np.eye(4))
         self.meas_optical = Measurement.fromMeasurementLabels(["azimuth_rad", "elevation_rad"], np.eye(2))
+        # the sensor_type strings REAL sensors write on their observations (sensor_base: getTypeString(self))
+        from resonaate.sensors.advanced_radar import AdvRadar
+        from resonaate.sensors.optical import Optical
+        from resonaate.sensors.radar import Radar
+        self.radar_types = (Radar.__name__, AdvRadar.__name__)
+        self.optical_type = Optical.__name__
 
 
 def _vrel(a, b):
@@ -323,11 +329,14 @@ def _site_state(I: Impl, rng: random.Random, when: datetime) -> np.ndarray:
     return np.asarray(I.methods.ecef2eci(I.methods.lla2ecef(lla), when), dtype=float)
 
 
-def _observe(I: Impl, when: datetime, jd: float, target, sensor, tid=40001, sid=50001, kind: str = "adv_radar"):
-    """The REAL measurement model, noise free (kind: a SensorLabel value; "optical" measures angles only)."""
+def _observe(I: Impl, when: datetime, jd: float, target, sensor, tid=40001, sid=50001, kind: str | None = None):
+    """The REAL measurement model, noise free.  kind is the sensor_type string a REAL sensor stamps on its
+    observations: getTypeString(sensor) = the class name (Radar / AdvRadar / Optical, read from the sensor
+    classes); the optical one measures angles only.  Default: advanced radar."""
+    kind = kind or I.radar_types[-1]
     return I.Observation.fromMeasurement(epoch_jd=jd, target_id=tid, tgt_eci_state=np.asarray(target, float), sensor_id=sid,
                                          sensor_eci=sensor, sensor_type=kind,
-                                         measurement=I.meas_optical if kind == "optical" else I.meas, noisy=False)
+                                         measurement=I.meas_optical if kind == I.optical_type else I.meas, noisy=False)
 
 
 def radar_inversion(ctx: Ctx, sink: Sink, I: Impl, rng: random.Random):
@@ -405,8 +414,8 @@ class IodBench:
                 self.epochs.add(jd)
                 self.db.insertData(self.Epoch(julian_date=jd, timestampISO=when.isoformat(timespec="microseconds")))
         s1, s2 = _site_state(I, sensor_seed, when1), _site_state(I, sensor_seed, when2)
-        ob1 = _observe(I, when1, jd1, x1, s1, self.sat, self.sen)
-        ob2 = _observe(I, when2, jd2, x2, s2, self.sat, self.sen)
+        ob1 = _observe(I, when1, jd1, x1, s1, self.sat, self.sen, I.radar_types[self.k % 2])
+        ob2 = _observe(I, when2, jd2, x2, s2, self.sat, self.sen, I.radar_types[(self.k // 2) % 2])
         self.db.insertData(ob1)
         iod = I.LambertIOD(60, solver, self.sat, I.JulianDate(self.jd0))
         sol = iod.determineNewEstimateState([ob2], I.ScenarioTime(t1 - 30), I.ScenarioTime(t2))
@@ -449,14 +458,15 @@ class IodBench:
             jd, when = self._epoch(t_cur - b)
             site = _site_state(I, sensor_seed, when)
             if kind == "other":
-                ob = _observe(I, when, jd, other_state_at(-float(b)), site, self.other, self.sen, sensor_seed.choice(("radar", "adv_radar")))
+                ob = _observe(I, when, jd, other_state_at(-float(b)), site, self.other, self.sen, sensor_seed.choice(I.radar_types))
             elif kind == "optical":
-                ob = _observe(I, when, jd, state_at(-float(b)), site, self.sat, self.sen, "optical")
+                ob = _observe(I, when, jd, state_at(-float(b)), site, self.sat, self.sen, I.optical_type)
             else:                                                        # "arc" / "before": radar, this target
-                ob = _observe(I, when, jd, state_at(-float(b)), site, self.sat, self.sen, sensor_seed.choice(("radar", "adv_radar")))
+                # every radar kind in turn, so that a track's eligible observations cover both
+                ob = _observe(I, when, jd, state_at(-float(b)), site, self.sat, self.sen, I.radar_types[(self.k + b // max(1, gap)) % len(I.radar_types)])
             self.db.insertData(ob)
         jd, when = self._epoch(t_cur)
-        cur = _observe(I, when, jd, state_at(0.0), _site_state(I, sensor_seed, when), self.sat, self.sen, "adv_radar")
+        cur = _observe(I, when, jd, state_at(0.0), _site_state(I, sensor_seed, when), self.sat, self.sen, I.radar_types[self.k % len(I.radar_types)])
         iod = I.LambertIOD(60, solver, self.sat, I.JulianDate(self.jd0))
         return iod.determineNewEstimateState([cur], I.ScenarioTime(t_det), I.ScenarioTime(t_cur)), t_det, back
 
@@ -649,6 +659,8 @@ def run(ctx: Ctx):
         "(2 asin sqrt(s/2a) sits at pi where asin(sqrt(.)) resolves sqrt(eps); worst measured 9.7e-8); at t_min (1 +- 1e-12 .. 1e-6) and on seeded "
         f"chords at t_min: relation with an admissible v1 error of {TOL_TMIN_V1} (worst implied 6e-7, Battin); a non-finite velocity never passes; "
         "seeded chords whose minimum-energy ellipse has e > 0.7 are outside the quantifier and skipped",
+        "stored observations carry the sensor_type strings real sensors write (class names Radar / AdvRadar / Optical); radar and advanced-radar observations "
+        "are eligible, optical ones are not (documented: 'Only Radar/AdvRadar Obs for Lambert IOD')",
         "IOD tracks: stored observations are evenly spaced (>= 61 s), all within 36 % of a period before the current one; eligible = radar observation of the "
         "target at/after the detection time (the documented query); which eligible one the implementation pairs is its choice, the result is fixed; "
         "velocity tolerance |v| (3e-7 + 3e-4 s / spacing) for the Julian-date resolution",
